@@ -39,6 +39,15 @@ cleanup() { [ "$KEEP" = 1 ] || rm -rf "$SCRATCH"; }
 trap cleanup EXIT
 
 changed=()
+# Allocation counts per call as audited in DESIGN.md §2.2 (Cargo.lock pins the
+# dependency versions these depend on).
+audited_allocs() {
+  case "$1" in
+    "Rgb::try_from(&Yuv<u8>)"|"Rgb::try_from(&Yuv<u16>)"|"LinearRgb::try_from(&Yuv<u8>)"|"Xyb::try_from(&Yuv<u8>)") echo 1 ;;
+    "Yuv::<u8>::try_from((&Rgb,cfg))"|"Yuv::<u16>::try_from((Rgb,cfg10))"|"Yuv::<u8>::try_from((Xyb,cfg))") echo 4 ;;
+    *) echo 0 ;;
+  esac
+}
 note() { echo "  $*"; }
 flag() { changed+=("$*"); echo "  !! $*"; }
 die()  { echo "AUDIT-ERROR: $*"; exit 2; }
@@ -49,7 +58,7 @@ echo "applicability audit of $REPO (seed $SEED)"
 # Non-test library code only: every `#[cfg(test)] mod tests` in this crate is
 # the last item of its file, so cut from that attribute to EOF. Comments are
 # stripped so prose ("thread", "static") cannot trip the scan.
-echo "[1/4] token scan of non-test sources"
+echo "[1/5] token scan of non-test sources"
 SRC_FILES=$(find "$REPO/src" "$REPO/yuvxyb-math/src" -name '*.rs' | sort)
 [ -n "$SRC_FILES" ] || die "no sources under $REPO/src"
 strip() { awk '/^[[:space:]]*#\[cfg\(test\)\]/{exit} {print}' "$1" | sed -E 's://.*$::'; }
@@ -70,7 +79,7 @@ if [ "$unsafe_now" = "$unsafe_want" ]; then note "unsafe inventory unchanged: $u
 else flag "unsafe inventory changed: now [$unsafe_now] audited [$unsafe_want]"; fi
 
 # ------------------------------------------------------- 2. runtime closure
-echo "[2/4] runtime dependency closure"
+echo "[2/5] runtime dependency closure"
 AUDITED_DEPS="aligned-vec av-data byte-slice-cast bytes equator equator-macro log num-bigint num-derive num-integer num-rational num-traits proc-macro2 quote syn unicode-ident v_frame yuvxyb yuvxyb-math"
 tree=$(cd "$REPO" && cargo tree -e normal --offline --prefix none 2>"$SCRATCH/tree.err") || { cat "$SCRATCH/tree.err"; die "cargo tree failed"; }
 now_deps=$(echo "$tree" | awk '{print $1}' | sort -u | tr '\n' ' ')
@@ -80,7 +89,7 @@ done
 note "closure: $now_deps"
 
 # --------------------------------------------- 3+4. probe: build and measure
-echo "[3/4] auto traits (compile-time) and seam counters"
+echo "[3/5] auto traits (compile-time) and seam counters"
 cp -r "$HERE/probe" "$SCRATCH/probe" || die "copy probe"
 sed -i "s|REPO_PATH|$REPO|g" "$SCRATCH/probe/Cargo.toml"
 cp "$REPO/Cargo.lock" "$SCRATCH/probe/Cargo.lock" 2>/dev/null
@@ -109,13 +118,11 @@ else
       *nspec*) ;;                                 # Unspecified-metadata paths log by design
       *) [ "$l" = 0 ] || flag "logger called on fully specified path: $name ($l)";;
     esac
-    case "$name" in
-      "LinearRgb::try_from(Rgb)"*|"Xyb::from(LinearRgb)"|"LinearRgb::from(Xyb)"|"Hsl::from(LinearRgb)"|"LinearRgb::from(Hsl)"|"Rgb::try_from((LinearRgb,"*|"Rgb::new("*|"Xyb::new"|"Yuv::<u8>::new("*|"Yuv::<u16>::new("*|"yuvxyb_math::"*)
-        [ "$a" = 0 ] || flag "allocation on a path audited as allocation-free: $name ($a)";;
-    esac
+    want=$(audited_allocs "$name")
+    [ "$a" = "$want" ] || flag "allocation count changed on $name: now $a, audited $want (scratch buffer, cache or pool?)"
   done < <(grep '^CALL ' "$SCRATCH/seams.out")
 
-  echo "[4/4] system calls between first and last conversion"
+  echo "[4/5] system calls between first and last conversion"
   if command -v strace >/dev/null; then
     strace -f -o "$SCRATCH/strace.out" "$BIN" seams >/dev/null 2>&1 || die "strace run failed"
     awk '/write\(1, "BEGIN-CONVERSIONS/{on=1; next} /write\(1, "END-CONVERSIONS/{on=0} on' "$SCRATCH/strace.out" \
@@ -135,11 +142,29 @@ else
     die "strace not installed"
   fi
 
+  echo "[5/5] history independence: seeded call histories vs. each call isolated in a fresh process"
+  nops=$("$BIN" nops) || die "probe nops"
+  : >"$SCRATCH/iso.txt"
+  for i in $(seq 0 $((nops-1))); do
+    "$BIN" iso "$i" >>"$SCRATCH/iso.txt" 2>"$SCRATCH/iso.err" || { cat "$SCRATCH/iso.err"; die "probe iso $i failed"; }
+  done
+  HSEEDS=4; HLEN=600; [ "$DEEP" = 1 ] && { HSEEDS=32; HLEN=3000; }
+  hbad=0
+  for k in $(seq 0 $((HSEEDS-1))); do
+    hs=$((SEED*1000+k))
+    "$BIN" hist "$hs" "$HLEN" >"$SCRATCH/hist.txt" 2>"$SCRATCH/hist.err" || { flag "history run seed=$hs crashed: $(tail -1 "$SCRATCH/hist.err")"; hbad=1; break; }
+    bad=$(awk 'NR==FNR{iso[$2]=$3; next} iso[$2]!=$3{print "op " $2 " at " $4 ": in-history " $3 " isolated " iso[$2]; exit}' "$SCRATCH/iso.txt" "$SCRATCH/hist.txt")
+    if [ -n "$bad" ]; then flag "result depends on call history (probe hist $hs $HLEN): $bad"; hbad=1; break; fi
+  done
+  [ $hbad = 0 ] && note "$nops ops x $HSEEDS seeded histories of $HLEN calls (main thread + long-lived worker): every digest equals the isolated one"
+
   if [ "$DEEP" = 1 ]; then
-    echo "[deep] shared-borrow thread probe, native x20 then Miri seeds $SEED..$((SEED+32))"
-    for i in $(seq 20); do "$BIN" threads 8 >"$SCRATCH/thr.out" 2>&1 || { flag "native thread probe: $(cat "$SCRATCH/thr.out")"; break; }; done
+    echo "[deep] thread probe (shared borrows + seeded per-thread op sequences), native x40 then Miri seeds $SEED..$((SEED+32))"
+    for i in $(seq 40); do
+      "$BIN" threads 8 $((SEED*100+i)) 400 >"$SCRATCH/thr.out" 2>&1 || { flag "native thread probe (probe threads 8 $((SEED*100+i)) 400): $(grep -m1 DIVERGED "$SCRATCH/thr.out" || tail -1 "$SCRATCH/thr.out")"; break; }
+    done
     export MIRIFLAGS="-Zmiri-many-seeds=$SEED..$((SEED+32)) -Zmiri-preemption-rate=0.2"
-    if (cd "$SCRATCH/probe" && CARGO_TARGET_DIR="$SCRATCH/miri-target" cargo +nightly miri run --offline -- threads 3 >"$SCRATCH/miri.out" 2>&1); then
+    if (cd "$SCRATCH/probe" && CARGO_TARGET_DIR="$SCRATCH/miri-target" cargo +nightly miri run --offline -- threads 3 "$SEED" 4 >"$SCRATCH/miri.out" 2>&1); then
       note "Miri: 32 seeded schedules, no data race, results bit-identical, sources unchanged"
     else
       if grep -qE 'Undefined Behavior|Data race|THREADS-DIVERGED' "$SCRATCH/miri.out"; then
